@@ -250,28 +250,29 @@ theorem hitsIn_split (objs : List Bool) : hitsIn objs = firstHits objs + hitsIn 
   rw [List.take_append_drop] at this
   exact this
 
-/-- Canonical state after `i` values. -/
-structure TaikoCanon (sk : Skills S) (objs : List Bool) (g : TaikoGrad S) (i : Nat) : Prop where
+/-- State after `i` hits have been passed and nothing has been drained (the states inside `next` / `nth`
+before the drain; for `i < H` also the canonical state after `i` values). -/
+structure TaikoMid (sk : Skills S) (objs : List Bool) (g : TaikoGrad S) (i : Nat) : Prop where
   idx : g.idx = i
   combo : g.maxCombo = i
   pos : g.iterPos = cutLen (objs.drop 2) (i - firstHits objs)
   skills : g.skills = processedPrefix sk (cutLen (objs.drop 2) (i - firstHits objs))
   le : i ≤ hitsIn objs
 
-/-- The `i`-th value. -/
-def taikoValue (sk : Skills S) (objs : List Bool) (i : Nat) : Nat × S :=
+/-- The `i`-th value without the final drain. -/
+def taikoMidValue (sk : Skills S) (objs : List Bool) (i : Nat) : Nat × S :=
   (i, processedPrefix sk (cutLen (objs.drop 2) (i - firstHits objs)))
 
-theorem taikoNew_canon (sk : Skills S) (objs : List Bool) : TaikoCanon sk objs (taikoNew sk objs) 0 :=
+theorem taikoNew_mid (sk : Skills S) (objs : List Bool) : TaikoMid sk objs (taikoNew sk objs) 0 :=
   ⟨rfl, rfl, by simp [taikoNew, cutLen_zero], by simp [taikoNew, cutLen_zero, processedPrefix, processFrom],
     Nat.zero_le _⟩
 
-theorem taikoNext_spec (sk : Skills S) (objs : List Bool) (g : TaikoGrad S) (i : Nat)
-    (hc : TaikoCanon sk objs g i) :
+theorem taikoNextCore_spec (sk : Skills S) (objs : List Bool) (g : TaikoGrad S) (i : Nat)
+    (hc : TaikoMid sk objs g i) :
     (i < hitsIn objs →
-      (taikoNext sk objs g).1 = some (taikoValue sk objs (i + 1)) ∧
-      TaikoCanon sk objs (taikoNext sk objs g).2 (i + 1)) ∧
-    (i = hitsIn objs → (taikoNext sk objs g).1 = none ∧ (taikoNext sk objs g).2.idx = i) := by
+      (taikoNextCore sk objs g).1 = some (taikoMidValue sk objs (i + 1)) ∧
+      TaikoMid sk objs (taikoNextCore sk objs g).2 (i + 1)) ∧
+    (i = hitsIn objs → (taikoNextCore sk objs g).1 = none ∧ (taikoNextCore sk objs g).2.idx = i) := by
   obtain ⟨hidx, hcombo, hpos, hsk, hle⟩ := hc
   have hH := hitsIn_split objs
   have hn := nHits_eq objs
@@ -282,9 +283,9 @@ theorem taikoNext_spec (sk : Skills S) (objs : List Bool) (g : TaikoGrad S) (i :
     have e1 : i + 1 - firstHits objs = 0 := by omega
     constructor
     · intro _
-      simp only [taikoNext, hcond, if_false]
+      simp only [taikoNextCore, hcond, if_false]
       refine ⟨?_, ⟨by simp [hidx], by simp [hcombo], ?_, ?_, by omega⟩⟩
-      · simp [taikoValue, hcombo, hsk, e0, e1]
+      · simp [taikoMidValue, hcombo, hsk, e0, e1]
       · simp [hpos, e0, e1]
       · simp [hsk, e0, e1]
     · intro heq; omega
@@ -307,15 +308,193 @@ theorem taikoNext_spec (sk : Skills S) (objs : List Bool) (g : TaikoGrad S) (i :
           cutLen ((objs.drop 2).drop (cutLen (objs.drop 2) (i - firstHits objs))) 1 =
           cutLen (objs.drop 2) (i + 1 - firstHits objs) := by
         rw [← cutLen_add]; congr 1; omega
-      simp only [taikoNext, hcond, if_true, hl, hnext]
+      simp only [taikoNextCore, hcond, if_true, hl, hnext]
       refine ⟨?_, ⟨by simp [hidx], by simp [hcombo], rfl, rfl, by omega⟩⟩
-      simp [taikoValue, hcombo]
+      simp [taikoMidValue, hcombo]
     · intro heq
       have hh : hitsIn ((objs.drop 2).drop (cutLen (objs.drop 2) (i - firstHits objs))) = 0 := by omega
       have hl := taikoHitLoop_dry sk (objs.drop 2) ((objs.drop 2).length + 1) g _ hpos hsk hqle hh
         (by omega)
-      simp only [taikoNext, hcond, if_true, hl]
+      simp only [taikoNextCore, hcond, if_true, hl]
       refine ⟨?_, ?_⟩ <;> simp [hidx]
+
+theorem cutLen_nil (t : Nat) : cutLen [] t = 0 := by cases t <;> rfl
+
+/-- `cutLen` of a list with at least two objects, beyond the hits of the first two. -/
+theorem cutLen_beyond_first (a b : Bool) (rest : List Bool) (m : Nat) :
+    cutLen (a :: b :: rest) (m + firstHits (a :: b :: rest) + 1) = 2 + cutLen rest (m + 1) := by
+  cases a <;> cases b <;> simp [firstHits, hitsIn, cutLen] <;> omega
+
+/-- … and up to the hits of the first two objects the cut stays inside them. -/
+theorem cutLen_within_first (a b : Bool) (rest : List Bool) (i : Nat) (hi : i ≤ firstHits (a :: b :: rest)) :
+    cutLen (a :: b :: rest) i ≤ 2 := by
+  cases a <;> cases b <;> simp [firstHits, hitsIn] at hi
+  · subst hi; simp [cutLen_zero]
+  · rcases (by omega : i = 0 ∨ i = 1) with h | h <;> subst h <;> simp [cutLen, cutLen_zero]
+  · rcases (by omega : i = 0 ∨ i = 1) with h | h <;> subst h <;> simp [cutLen, cutLen_zero]
+  · rcases (by omega : i = 0 ∨ i = 1 ∨ i = 2) with h | h | h <;> subst h <;> simp [cutLen, cutLen_zero]
+
+/-- The pre-fix one-shot with `passed_objects = i`, `1 ≤ i ≤ hits`, on an arbitrary map. -/
+theorem taikoOneShotOld_general (sk : Skills S) (objs : List Bool) (i : Nat) (h1 : 1 ≤ i)
+    (hle : i ≤ hitsIn objs) :
+    Old.taikoOneShot sk objs i = taikoMidValue sk objs i := by
+  have hmc := taiko_inspect_fold i objs 0 0 (Nat.zero_le _)
+  have hnd := taiko_inspect_fold_nd i objs 0 0 (Nat.zero_le _)
+  simp only [Nat.zero_add, Nat.sub_zero] at hmc hnd
+  have hmin : min i (hitsIn objs) = i := by omega
+  unfold Old.taikoOneShot taikoCreate
+  generalize objs.foldl (taikoInspectStep i) (0, 0) = r at hmc hnd
+  obtain ⟨mc, nd⟩ := r
+  simp only at hmc hnd
+  match objs, hle, hmc, hnd with
+  | [], hle, _, _ => simp [hitsIn] at hle; omega
+  | [a], hle, hmc, hnd =>
+    simp only [List.length_singleton, show (1 : Nat) < 2 by omega, if_true]
+    rw [hmc, hmin]
+    simp [taikoMidValue, cutLen_nil]
+  | a :: b :: rest, hle, hmc, hnd =>
+    have hlen : ¬ ((a :: b :: rest).length < 2) := by simp
+    simp only [hlen, if_false]
+    rw [hmc, hmin, hnd]
+    simp only [taikoMidValue, List.drop_succ_cons, List.drop_zero, List.length_cons]
+    congr 2
+    have hq := cutLen_le rest (i - firstHits (a :: b :: rest))
+    by_cases hk : i ≤ firstHits (a :: b :: rest)
+    · have := cutLen_within_first a b rest i hk
+      have e0 : i - firstHits (a :: b :: rest) = 0 := by omega
+      rw [e0, cutLen_zero]
+      split <;> omega
+    · obtain ⟨m, hm⟩ : ∃ m, i = m + firstHits (a :: b :: rest) + 1 :=
+        ⟨i - firstHits (a :: b :: rest) - 1, by omega⟩
+      have := cutLen_beyond_first a b rest m
+      rw [← hm] at this
+      have e1 : i - firstHits (a :: b :: rest) = m + 1 := by omega
+      rw [e1] at hq ⊢
+      rw [this]
+      have hpos : 0 < i ∧ 0 < 2 + cutLen rest (m + 1) := by omega
+      simp only [hpos, and_self, if_true]
+      omega
+
+theorem cutLen_cons_succ (b : Bool) (l : List Bool) (t : Nat) :
+    cutLen (b :: l) (t + 1) = 1 + cutLen l (if b then t else t + 1) := rfl
+
+/-! ### Canonical states and values with the final drain -/
+
+/-- Position of the difficulty-object iterator after `i` values: the hits passed so far, and — once the
+last hit has been reported — everything (`taikoDrain`). -/
+def taikoPos (objs : List Bool) (i : Nat) : Nat :=
+  if 0 < i ∧ i = hitsIn objs then (objs.drop 2).length
+  else cutLen (objs.drop 2) (i - firstHits objs)
+
+/-- Canonical state after `i` values. -/
+structure TaikoCanon (sk : Skills S) (objs : List Bool) (g : TaikoGrad S) (i : Nat) : Prop where
+  idx : g.idx = i
+  combo : g.maxCombo = i
+  pos : g.iterPos = taikoPos objs i
+  skills : g.skills = processedPrefix sk (taikoPos objs i)
+  le : i ≤ hitsIn objs
+
+/-- The `i`-th value. -/
+def taikoValue (sk : Skills S) (objs : List Bool) (i : Nat) : Nat × S :=
+  (i, processedPrefix sk (taikoPos objs i))
+
+theorem taikoPos_mid (objs : List Bool) (i : Nat) (h : i < hitsIn objs ∨ i = 0) :
+    taikoPos objs i = cutLen (objs.drop 2) (i - firstHits objs) := by
+  unfold taikoPos
+  rw [if_neg (by omega)]
+
+theorem TaikoCanon.toMid {sk : Skills S} {objs : List Bool} {g : TaikoGrad S} {i : Nat}
+    (hc : TaikoCanon sk objs g i) (h : i < hitsIn objs ∨ i = 0) : TaikoMid sk objs g i :=
+  ⟨hc.idx, hc.combo, by rw [hc.pos, taikoPos_mid objs i h], by rw [hc.skills, taikoPos_mid objs i h], hc.le⟩
+
+theorem TaikoMid.toCanon {sk : Skills S} {objs : List Bool} {g : TaikoGrad S} {i : Nat}
+    (hc : TaikoMid sk objs g i) (h : i < hitsIn objs ∨ i = 0) : TaikoCanon sk objs g i :=
+  ⟨hc.idx, hc.combo, by rw [hc.pos, taikoPos_mid objs i h], by rw [hc.skills, taikoPos_mid objs i h], hc.le⟩
+
+theorem taikoNew_canon (sk : Skills S) (objs : List Bool) : TaikoCanon sk objs (taikoNew sk objs) 0 :=
+  (taikoNew_mid sk objs).toCanon (Or.inr rfl)
+
+/-- The drain after `idx += 1`: it turns the undrained state after `j ≥ 1` hits into the canonical
+state after `j` values (a no-op unless `j` is the number of hits). -/
+theorem taikoDrain_mid (sk : Skills S) (objs : List Bool) (g : TaikoGrad S) (j : Nat)
+    (hm : TaikoMid sk objs g j) (hj : 0 < j) : TaikoCanon sk objs (taikoDrain sk objs g) j := by
+  obtain ⟨hidx, hcombo, hpos, hsk, hle⟩ := hm
+  have hq : cutLen (objs.drop 2) (j - firstHits objs) ≤ (objs.drop 2).length := cutLen_le _ _
+  unfold taikoDrain
+  by_cases hH : j = hitsIn objs
+  · have hcond : g.idx = (objs.filter id).length := by rw [hidx, hH]; rfl
+    have hp : taikoPos objs j = (objs.drop 2).length := by
+      unfold taikoPos; rw [if_pos ⟨hj, hH⟩]
+    rw [if_pos hcond]
+    refine ⟨hidx, hcombo, ?_, ?_, hle⟩
+    · show g.iterPos + ((objs.drop 2).length - g.iterPos) = _
+      rw [hp, hpos]; omega
+    · show processFrom sk g.skills g.iterPos ((objs.drop 2).length - g.iterPos) = _
+      rw [hp, hsk, hpos, ← processedPrefix_add]
+      congr 1; omega
+  · have hcond : ¬ g.idx = (objs.filter id).length := by
+      rw [hidx]; exact fun h => hH h
+    rw [if_neg hcond]
+    exact (TaikoMid.toCanon ⟨hidx, hcombo, hpos, hsk, hle⟩ (Or.inl (by omega)))
+
+theorem taikoNext_of_core_none (sk : Skills S) (objs : List Bool) (g : TaikoGrad S)
+    (h : (taikoNextCore sk objs g).1 = none) :
+    taikoNext sk objs g = (none, (taikoNextCore sk objs g).2) := by
+  unfold taikoNext
+  generalize taikoNextCore sk objs g = r at h ⊢
+  obtain ⟨a, b⟩ := r
+  simp only at h
+  subst h
+  rfl
+
+/-- `next` from an undrained state after `j < H` hits: the value number `j + 1` and the canonical state
+after it. -/
+theorem taikoNext_mid (sk : Skills S) (objs : List Bool) (g : TaikoGrad S) (j : Nat)
+    (hm : TaikoMid sk objs g j) (hlt : j < hitsIn objs) :
+    (taikoNext sk objs g).1 = some (taikoValue sk objs (j + 1)) ∧
+      TaikoCanon sk objs (taikoNext sk objs g).2 (j + 1) := by
+  obtain ⟨hv, hm'⟩ := (taikoNextCore_spec sk objs g j hm).1 hlt
+  have hd := taikoDrain_mid sk objs _ (j + 1) hm' (by omega)
+  unfold taikoNext
+  generalize taikoNextCore sk objs g = r at hv hd ⊢
+  obtain ⟨a, b⟩ := r
+  simp only at hv hd
+  subst hv
+  refine ⟨?_, hd⟩
+  simp only [taikoValue]
+  rw [hd.combo, hd.skills]
+
+/-- `next` from the canonical state after `i` values. -/
+theorem taikoNext_spec (sk : Skills S) (objs : List Bool) (g : TaikoGrad S) (i : Nat)
+    (hc : TaikoCanon sk objs g i) :
+    (i < hitsIn objs →
+      (taikoNext sk objs g).1 = some (taikoValue sk objs (i + 1)) ∧
+      TaikoCanon sk objs (taikoNext sk objs g).2 (i + 1)) ∧
+    (i = hitsIn objs → (taikoNext sk objs g).1 = none ∧ (taikoNext sk objs g).2.idx = i) := by
+  constructor
+  · intro hlt
+    exact taikoNext_mid sk objs g i (hc.toMid (Or.inl hlt)) hlt
+  · intro heq
+    by_cases h0 : i = 0
+    · have hn := (taikoNextCore_spec sk objs g i (hc.toMid (Or.inr h0))).2 heq
+      rw [taikoNext_of_core_none sk objs g hn.1]
+      exact ⟨rfl, hn.2⟩
+    · -- already drained: the hit loop finds nothing
+      have hp : taikoPos objs i = (objs.drop 2).length := by
+        unfold taikoPos; rw [if_pos ⟨by omega, heq⟩]
+      have hH := hitsIn_split objs
+      have hcond : g.idx ≥ (taikoFirstCombos objs).nHits := by rw [nHits_eq, hc.idx]; omega
+      have hdrop0 : hitsIn ((objs.drop 2).drop (objs.drop 2).length) = 0 := by
+        rw [List.drop_length]; rfl
+      have hl := taikoHitLoop_dry sk (objs.drop 2) ((objs.drop 2).length + 1) g (objs.drop 2).length
+        (by rw [hc.pos, hp]) (by rw [hc.skills, hp]) (Nat.le_refl _) hdrop0 (by omega)
+      have hcore : taikoNextCore sk objs g =
+          (none, { g with iterPos := (objs.drop 2).length,
+                          skills := processedPrefix sk (objs.drop 2).length }) := by
+        simp only [taikoNextCore, hcond, if_true, hl]
+      rw [taikoNext_of_core_none sk objs g (by rw [hcore])]
+      rw [hcore]
+      exact ⟨rfl, hc.idx⟩
 
 theorem taiko_nexts_spec (sk : Skills S) (objs : List Bool) (k : Nat) (g : TaikoGrad S) (i : Nat)
     (hc : TaikoCanon sk objs g i) (hk : i + k ≤ hitsIn objs) :
@@ -347,130 +526,42 @@ theorem taiko_nexts_spec (sk : Skills S) (objs : List Bool) (k : Nat) (g : Taiko
     · have e : i + (k + 1) = i + 1 + k := by omega
       rw [e]; exact ih'.2
 
-theorem cutLen_nil (t : Nat) : cutLen [] t = 0 := by cases t <;> rfl
+/-- One-shot with a limit at or beyond the number of hits: everything is processed. -/
+theorem taikoOneShot_ge (sk : Skills S) (objs : List Bool) (t : Nat) (h : hitsIn objs ≤ t) :
+    taikoOneShot sk objs t = (hitsIn objs, processedPrefix sk (objs.drop 2).length) := by
+  have hmc := taiko_inspect_fold t objs 0 0 (Nat.zero_le _)
+  simp only [Nat.zero_add] at hmc
+  have hcond : t ≥ (objs.filter id).length := h
+  unfold taikoOneShot taikoCreate
+  generalize objs.foldl (taikoInspectStep t) (0, 0) = r at hmc
+  obtain ⟨mc, nd⟩ := r
+  simp only at hmc
+  by_cases hlen : objs.length < 2
+  · simp only [hlen, if_true, hcond]
+    rw [hmc, Nat.min_eq_right h]
+    have : (objs.drop 2).length = 0 := by simp; omega
+    simp [this]
+  · simp only [hlen, if_false, hcond, if_true]
+    rw [hmc, Nat.min_eq_right h]
+    simp
 
-/-- `cutLen` of a list with at least two objects, beyond the hits of the first two. -/
-theorem cutLen_beyond_first (a b : Bool) (rest : List Bool) (m : Nat) :
-    cutLen (a :: b :: rest) (m + firstHits (a :: b :: rest) + 1) = 2 + cutLen rest (m + 1) := by
-  cases a <;> cases b <;> simp [firstHits, hitsIn, cutLen] <;> omega
-
-/-- … and up to the hits of the first two objects the cut stays inside them. -/
-theorem cutLen_within_first (a b : Bool) (rest : List Bool) (i : Nat) (hi : i ≤ firstHits (a :: b :: rest)) :
-    cutLen (a :: b :: rest) i ≤ 2 := by
-  cases a <;> cases b <;> simp [firstHits, hitsIn] at hi
-  · subst hi; simp [cutLen_zero]
-  · rcases (by omega : i = 0 ∨ i = 1) with h | h <;> subst h <;> simp [cutLen, cutLen_zero]
-  · rcases (by omega : i = 0 ∨ i = 1) with h | h <;> subst h <;> simp [cutLen, cutLen_zero]
-  · rcases (by omega : i = 0 ∨ i = 1 ∨ i = 2) with h | h | h <;> subst h <;> simp [cutLen, cutLen_zero]
-
-/-- One-shot with `passed_objects = i`, `1 ≤ i ≤ hits`, on an arbitrary map. -/
+/-- One-shot with `passed_objects = i`, `1 ≤ i ≤ hits`, on an arbitrary map: the `i`-th value. -/
 theorem taikoOneShot_general (sk : Skills S) (objs : List Bool) (i : Nat) (h1 : 1 ≤ i)
     (hle : i ≤ hitsIn objs) :
     taikoOneShot sk objs i = taikoValue sk objs i := by
-  have hmc := taiko_inspect_fold i objs 0 0 (Nat.zero_le _)
-  have hnd := taiko_inspect_fold_nd i objs 0 0 (Nat.zero_le _)
-  simp only [Nat.zero_add, Nat.sub_zero] at hmc hnd
-  have hmin : min i (hitsIn objs) = i := by omega
-  unfold taikoOneShot taikoCreate
-  generalize objs.foldl (taikoInspectStep i) (0, 0) = r at hmc hnd
-  obtain ⟨mc, nd⟩ := r
-  simp only at hmc hnd
-  match objs, hle, hmc, hnd with
-  | [], hle, _, _ => simp [hitsIn] at hle; omega
-  | [a], hle, hmc, hnd =>
-    simp only [List.length_singleton, show (1 : Nat) < 2 by omega, if_true]
-    rw [hmc, hmin]
-    simp [taikoValue, cutLen_nil]
-  | a :: b :: rest, hle, hmc, hnd =>
-    have hlen : ¬ ((a :: b :: rest).length < 2) := by simp
-    simp only [hlen, if_false]
-    rw [hmc, hmin, hnd]
-    simp only [taikoValue, List.drop_succ_cons, List.drop_zero, List.length_cons]
-    congr 2
-    have hq := cutLen_le rest (i - firstHits (a :: b :: rest))
-    by_cases hk : i ≤ firstHits (a :: b :: rest)
-    · have := cutLen_within_first a b rest i hk
-      have e0 : i - firstHits (a :: b :: rest) = 0 := by omega
-      rw [e0, cutLen_zero]
-      split <;> omega
-    · obtain ⟨m, hm⟩ : ∃ m, i = m + firstHits (a :: b :: rest) + 1 :=
-        ⟨i - firstHits (a :: b :: rest) - 1, by omega⟩
-      have := cutLen_beyond_first a b rest m
-      rw [← hm] at this
-      have e1 : i - firstHits (a :: b :: rest) = m + 1 := by omega
-      rw [e1] at hq ⊢
-      rw [this]
-      have hpos : 0 < i ∧ 0 < 2 + cutLen rest (m + 1) := by omega
-      simp only [hpos, and_self, if_true]
-      omega
-
-theorem cutLen_cons_succ (b : Bool) (l : List Bool) (t : Nat) :
-    cutLen (b :: l) (t + 1) = 1 + cutLen l (if b then t else t + 1) := rfl
-
-/-- One-shot results depend on `take` only through `min take H`, the cut position and `take > 0`. -/
-theorem taikoOneShot_congr (sk : Skills S) (objs : List Bool) (t t' : Nat)
-    (hm : min t (hitsIn objs) = min t' (hitsIn objs)) (hc : cutLen objs t = cutLen objs t')
-    (hp : 0 < t ↔ 0 < t') : taikoOneShot sk objs t = taikoOneShot sk objs t' := by
-  have hmc := taiko_inspect_fold t objs 0 0 (Nat.zero_le _)
-  have hnd := taiko_inspect_fold_nd t objs 0 0 (Nat.zero_le _)
-  have hmc' := taiko_inspect_fold t' objs 0 0 (Nat.zero_le _)
-  have hnd' := taiko_inspect_fold_nd t' objs 0 0 (Nat.zero_le _)
-  simp only [Nat.zero_add, Nat.sub_zero] at hmc hnd hmc' hnd'
-  unfold taikoOneShot taikoCreate
-  generalize objs.foldl (taikoInspectStep t) (0, 0) = r at hmc hnd
-  generalize objs.foldl (taikoInspectStep t') (0, 0) = r' at hmc' hnd'
-  obtain ⟨mc, nd⟩ := r
-  obtain ⟨mc', nd'⟩ := r'
-  simp only at hmc hnd hmc' hnd'
-  have e1 : mc = mc' := by rw [hmc, hmc', hm]
-  have e2 : nd = nd' := by rw [hnd, hnd', hc]
-  subst e1 e2
-  by_cases h0 : 0 < t
-  · have h0' : 0 < t' := hp.mp h0
-    simp [h0, h0']
-  · have h0' : ¬ 0 < t' := fun h => h0 (hp.mpr h)
-    simp [h0, h0']
-
-theorem cutLen_of_lt (l : List Bool) (t : Nat) (h : hitsIn l < t) : cutLen l t = l.length := by
-  induction l generalizing t with
-  | nil => cases t <;> simp [cutLen]
-  | cons b l ih =>
-    obtain ⟨k, rfl⟩ : ∃ k, t = k + 1 := ⟨t - 1, by omega⟩
-    rw [hitsIn_cons] at h
-    rw [cutLen_cons_succ]
-    cases b
-    · simp only [Bool.false_eq_true, ↓reduceIte, List.length_cons]
-      rw [ih (k + 1) (by simpa using h)]; omega
-    · simp only [↓reduceIte, List.length_cons]
-      rw [ih k (by simp at h; omega)]; omega
-
-theorem cutLen_last_hit (l : List Bool) (h : l.getLast? = some true) :
-    cutLen l (hitsIn l) = l.length := by
-  induction l with
-  | nil => simp at h
-  | cons b l ih =>
-    rw [hitsIn_cons]
-    cases l with
-    | nil =>
-      simp at h; subst h
-      simp [hitsIn, cutLen, cutLen_zero]
-    | cons c l' =>
-      have h' : (c :: l').getLast? = some true := by simpa [List.getLast?_cons_cons] using h
-      have ih' := ih h'
-      have hpos : 1 ≤ hitsIn (c :: l') := by
-        have : true ∈ (c :: l') := List.mem_of_getLast? h'
-        unfold hitsIn
-        exact List.length_pos_of_mem (List.mem_filter.mpr ⟨this, rfl⟩)
-      obtain ⟨k, hk⟩ : ∃ k, hitsIn (c :: l') = k + 1 := ⟨hitsIn (c :: l') - 1, by omega⟩
-      cases b
-      · simp only [Bool.false_eq_true, ↓reduceIte, Nat.zero_add]
-        rw [hk] at ih' ⊢
-        rw [cutLen_cons_succ]
-        simp only [Bool.false_eq_true, ↓reduceIte]
-        rw [ih']; simp; omega
-      · simp only [↓reduceIte]
-        rw [show 1 + hitsIn (c :: l') = hitsIn (c :: l') + 1 by omega, cutLen_cons_succ]
-        simp only [↓reduceIte]
-        rw [ih']; simp; omega
+  rcases Nat.lt_or_ge i (hitsIn objs) with hlt | hge
+  · have hcond : ¬ i ≥ (objs.filter id).length := by
+      intro h; exact absurd h (by show ¬ hitsIn objs ≤ i; omega)
+    have : taikoOneShot sk objs i = Old.taikoOneShot sk objs i := by
+      unfold taikoOneShot Old.taikoOneShot
+      simp only [hcond, if_false]
+    rw [this, taikoOneShotOld_general sk objs i h1 hle]
+    simp only [taikoMidValue, taikoValue, taikoPos_mid objs i (Or.inl hlt)]
+  · have heq : i = hitsIn objs := by omega
+    rw [taikoOneShot_ge sk objs i hge]
+    simp only [taikoValue]
+    have hp : taikoPos objs i = (objs.drop 2).length := by
+      unfold taikoPos; rw [if_pos ⟨by omega, heq⟩]
+    rw [hp, heq]
 
 end Rosu.Gradual
